@@ -367,6 +367,20 @@ func (engine) Body(r *simdrv.Run) {
 						cb.unInv = cb.regRet // treat as not registered
 					}
 					r.Log("%d regcb cb=%d %s err=%v task=%s (invoked %d)", cb.regRet, cb.id, h.key, err, name, cb.regInv)
+					// One time in five the task also registers a callback for the same instrument through the
+					// OTHER global meter. Before installation the global meter accepts it; the SDK rejects it
+					// when the registrations are handed over (an instrument of another meter), which must not
+					// keep the other callbacks of that meter from being handed over, nor the installation from
+					// returning (after seeded change C16-l, whose hand-over loop stalls on a rejected callback).
+					if sim.Draw(5) == 0 {
+						r.Fault("callback-registered-through-the-other-meter")
+						otherName := "m1"
+						if h.key.meter == "m1" {
+							otherName = "m0"
+						}
+						_, ferr := otel.Meter(otherName).RegisterCallback(func(context.Context, metric.Observer) error { return nil }, obs)
+						r.Log("%d regcb-foreign %s through %s err=%v task=%s", sim.Stamp(), h.key, otherName, ferr, name)
+					}
 				case "unregcb":
 					for _, cb := range myCbs {
 						if cb.unInv == 0 && cb.reg != nil {
